@@ -18,7 +18,8 @@ theorem object_key_step (g f depth length : Nat) (value buf : Bytes) (k : Nat) (
   have h0 : ((0 : Nat) : Int) = 0 := rfl
   rw [Tr.object_convert_to_comparable]
   rw [Fn.keyObject] at hne ⊢
-  simp only [← h8, Rs.mul_usize_nat 8 length (by omega), vecWithCapacity_ok Tr.JEntry 8 length (by omega),
+  simp only [← h8, Rs.mul_usize_nat 8 length (by omega), Rs.mul_usize_nat length 8 (by omega), Nat.mul_comm length 8,
+    vecWithCapacity_ok Tr.JEntry 8 length (by omega),
     Ctl.ofRes_ok', Ctl.val_bind', Rs.forRange_zero]
   rw [← h0]
   rw [keys_run value (.ok buf) (Tr.object_convert_to_comparable.loop1 value buf)
